@@ -267,7 +267,7 @@ func (vc *VC) unop(op token.Token, a *Val, rt types.Type) *Val {
 	case token.SUB:
 		if a.K == KBV {
 			if vc.intMode {
-				return vc.wrapInt(app("-", a.C[0]), a.W, a.Signed, rt)
+				return vc.negInt(a, rt)
 			}
 			if v, w, ok := asLit(a.C[0]); ok {
 				return vc.bv(bvLit(w, new(big.Int).Neg(v)), a.W, a.Signed, rt)
